@@ -15,6 +15,8 @@ INVARIANT LateBound
 INVARIANT NeverCaught
 INVARIANT NoLateFinish
 INVARIANT TypeOK
+PROPERTY Termination
+PROPERTY StaysStopped
 CHECK_DEADLOCK FALSE
 """
 ENUM_CFG = "INIT EnumInit\nNEXT EnumNext\nCONSTRAINT EnumEmit\nCHECK_DEADLOCK FALSE\n"
